@@ -886,6 +886,33 @@ pub fn generate(seed: u64, thorough: bool, emit: &mut dyn FnMut(String)) {
         }
         both(emit, KINDS[(k + 1) % 5], n, &b);
     }
+    // 4b. the same with pivots p for which p * (1/p) != 1 in binary64 (49, 98, 103, 107, ...: a multiplier formed as
+    // numerator * reciprocal instead of a division leaves a rounding residue where the exact pivot is 0 — seed C09-s5),
+    // pivots up to 1000, exactly proportional leading rows (L0 entry 1 or 2 under the first pivot)
+    {
+        let odd: Vec<f64> = (2..=1000u32).map(|a| a as f64).filter(|a| a * (1.0 / a) != 1.0).collect();
+        for k in 0..80 * scale {
+            let n = 2 + rng.below(5) as usize;
+            let z = 1 + rng.below(n as u64 - 1) as usize;
+            let mut l0 = vec![0.0; n * n];
+            let mut u0 = vec![0.0; n * n];
+            for i in 0..n {
+                for j in 0..n {
+                    if i == j {
+                        l0[i * n + j] = 1.0;
+                        let p = if rng.chance(2, 3) { *rng.pick(&odd) } else { rng.range(2, 1000) as f64 };
+                        u0[i * n + j] = if i == z { 0.0 } else if rng.chance(1, 2) { p } else { -p };
+                    } else if i > j {
+                        l0[i * n + j] = if j + 1 == i && rng.chance(1, 2) { *rng.pick(&[1.0, 2.0]) } else { rng.range(-3, 3) as f64 };
+                    } else {
+                        u0[i * n + j] = rng.range(-9, 9) as f64;
+                    }
+                }
+            }
+            let a = matmul(n, &l0, &u0);
+            both(emit, KINDS[k % 5], n, &a);
+        }
+    }
     // zero in the corner, otherwise dense integers
     for k in 0..60 * scale {
         let n = 2 + rng.below(9) as usize;
